@@ -223,7 +223,8 @@ def run(ctx):
     jobs = []
     n = 0
     ntrees = 150 if ctx.tier == 'quick' else 2500
-    optsets = ['x', 'e', 'xf', 'xq0', 'xq1', 'xq2', 'xq', 'xv', 'xfi', 'xfw=out', 'xfw=new/deep/er', 'xfw=existing', 'xfv', 'efq']
+    optsets = ['x', 'e', 'xf', 'xq0', 'xq1', 'xq2', 'xq', 'xv', 'xfi', 'xfw=out', 'xfw=new/deep/er', 'xfw=existing', 'xfv', 'efq',
+               'xfiw=out', 'efiw=new/deep/er', 'xiq2w=out2', 'xfivw=existing']     # options in combination, not only one at a time
     for t in range(ntrees):
         entries = fstree.gen_tree(rnd, METHODS, maxdepth=rnd.choice([1, 2, 4, 5])) if t else \
             fstree.mac_plain_tree(rnd, [m for m in ('-lh0-', '-lz4-', '-lh5-', '-lz5-', '-lzs-', '-lh1-', '-pm2-') if m in METHODS])
@@ -233,7 +234,7 @@ def run(ctx):
         norm_entries(entries, ms)
         A = arc.archive(ms)
         names = [e['npath'] for e in entries if e.get('npath')]
-        for cmd in rnd.sample(optsets, 4 if ctx.tier == 'quick' else 6):
+        for cmd in rnd.sample(optsets, 5 if ctx.tier == 'quick' else 8):
             pre = None
             if 'existing' in cmd:
                 pre = {}
